@@ -18,7 +18,7 @@ from ..runs import run_function
 from ..scenarios import core_impl, recv_sym
 from ..values import ARG, CLS, FRESH, IMM, RECV, Const, Event, Sym, vrepr
 from . import provrun
-from .base import get_ctx, pmap, walk_own
+from .base import get_ctx, pmap, walk_own, is_imm
 
 META = {
     "assumptions": [
@@ -58,13 +58,15 @@ def _analyse(ctx, trace, imm):
     if not trace or trace[0][0] != "DIRTY":
         return []
     d = trace[0]
-    if d[2] in imm:
+    if is_imm(d[2], imm):
         return []
     dfn, dstmt = ctx.p.stmt_at(d[-1])
     out = []
     for e in trace[1:]:
         if e[0] == "W2":
             continue
+        if e[0] == "MR" and ("/._dict" in e[1] or e[1].startswith("setitem:") and "/._list" in e[1]):
+            continue    # KeyedList/KeyedSet keep a key index next to the items: see C13.COH / C13.AT for these steps
         fn, stmt = ctx.p.stmt_at(e[-1])
         kind = {"R": "raise", "RR": "re-raise", "UR": "user callback raises", "MR": "primitive may raise",
                 "U": "user callback / constructor call"}[e[0]]
@@ -76,7 +78,7 @@ def _analyse(ctx, trace, imm):
 
 def worker(task):
     ctx = get_ctx()
-    r = provrun.run(task, _reducer, inplace=True, loop_unroll=(2 if task[2] is None else 1),
+    r = provrun.run(task, _reducer, inplace=True, loop_unroll=(2 if (task[2] is None and len(task) == 3) else 1),
                     configure=lambda cfg: setattr(cfg, "rawset_raises", False))
     viols = []
     for p in r["paths"]:
@@ -134,7 +136,7 @@ def check(ctx, rep: Report):
     rep.rules["C04.AT"] = ("in-place routes: no raise / may-raise primitive / user callback after the first write to a "
                            "pre-existing (RECV/ARG) object, loops unrolled twice; non-trivial = path containing a dirty write")
     rep.envs.append({"_inplace": True, "frozen": False, "do_not_copy": False})
-    for r in pmap(worker, provrun.helper_tasks(ctx)):
+    for r in pmap(worker, provrun.helper_tasks(ctx) + provrun.keyed_tasks(ctx)):
         provrun.absorb(rep, r)
         rep.oblige("C04.AT", r["entry"], not r["viols"], f"{len(r['paths'])} paths")
         for v in r["viols"]:
